@@ -1,7 +1,14 @@
 (** Property C14 — a base description is preserved; only paths and schema components
     are replaced. Statements only; proofs in Proofs/MergeProofs.v. Universal in the base
-    document, the default base, and the generated paths/schemas. *)
+    document, the default base, and the generated paths/schemas.
+    The second half of the file states the same on JSON values (Model/BuilderBase.v, the
+    builder model run on a base description; tied to Builder::with_base on every run): every
+    top-level member other than "paths" and "components" and every member of "components"
+    other than "schemas" is carried over unchanged and in order; "paths" and the schema
+    components are the generated ones, whatever the base had; without a base the document is
+    the one of Model/Builder.v. *)
 From Oal Require Import Merge MergeProofs.
+From Oal Require Builder BuilderBase BaseClosure RefClosure.
 
 Theorem C14_frame_top : forall db p s b k,
   k <> K_PATHS -> k <> K_COMPONENTS ->
@@ -36,3 +43,32 @@ Theorem C14_replace_components_breaks_frame : exists b k, k <> K_SCHEMAS /\
   get k (components_of (into_openapi_replace 0 0 b)) <> get k (components_of b).
 Proof. exact replace_components_breaks_frame. Qed.
 Print Assumptions C14_replace_components_breaks_frame.
+
+(** on JSON values *)
+Theorem C14_json_base_members_kept : forall base ps cs,
+  BuilderBase.remove_key BuilderKeys.T_paths (BuilderBase.remove_key BuilderKeys.T_components (BuilderBase.with_base base ps cs)) =
+  BuilderBase.remove_key BuilderKeys.T_paths (BuilderBase.remove_key BuilderKeys.T_components base).
+Proof. exact BaseClosure.base_members_kept. Qed.
+Print Assumptions C14_json_base_members_kept.
+
+Theorem C14_json_base_components_kept : forall base ps cs cm,
+  Builder.get BuilderKeys.T_components base = Some (Builder.JObj cm) ->
+  exists cm', Builder.get BuilderKeys.T_components (BuilderBase.with_base base ps cs) = Some (Builder.JObj cm') /\
+              BuilderBase.remove_key BuilderKeys.T_schemas cm' = BuilderBase.remove_key BuilderKeys.T_schemas cm.
+Proof. exact BaseClosure.base_components_kept. Qed.
+Print Assumptions C14_json_base_components_kept.
+
+Theorem C14_json_paths_from_program : forall base ps cs,
+  Builder.get BuilderKeys.T_paths (BuilderBase.with_base base ps cs) = Some ps.
+Proof. exact BaseClosure.with_base_paths. Qed.
+Print Assumptions C14_json_paths_from_program.
+
+Theorem C14_json_schemas_from_program : forall base ps cs,
+  RefClosure.schema_names (Builder.JObj (BuilderBase.with_base base ps cs)) = map fst cs.
+Proof. exact BaseClosure.base_schemas_replaced. Qed.
+Print Assumptions C14_json_schemas_from_program.
+
+Theorem C14_json_default_base : forall strs table names rels,
+  BuilderBase.document_with_base strs table names BuilderBase.default_base rels = Builder.document strs table names rels.
+Proof. exact BaseClosure.document_default_base. Qed.
+Print Assumptions C14_json_default_base.
